@@ -298,9 +298,15 @@ CLAIMED["C07"] = {
     "ScaleAndShift.reparameterise / inverse_reparameterise (per-parameter "
     "loop unrolled for two names; values, scales, shifts symbolic; "
     "non-sampling fields untouched; round trip and cancelling Jacobians) "
-    "and RescaleToBounds._rescale_to_bounds / _inverse_rescale_to_bounds.",
+    "and RescaleToBounds._rescale_to_bounds / _inverse_rescale_to_bounds; "
+    "the prime prior: log_uniform_prior is the log-indicator of "
+    "[xmin, xmax] and RescaleToBounds.x_prime_log_prior is the product of "
+    "the per-parameter uniform priors (support = the box of prime bounds; "
+    "two parameters unrolled), raising exactly when no prime prior is "
+    "configured.",
     "note": "NOT under contract (named as unverified): RescaleToBounds "
-    "inversion (split / duplicate), update_bounds / prime priors, Angle, "
+    "inversion (split / duplicate), update_bounds / update_prime_prior_bounds "
+    "(how the prime bounds are derived), Angle, "
     "ToCartesian, AnglePair, CombinedReparameterisation, "
     "FlowProposal.rescale, all GW reparameterisations, logit with eps "
     "(clipping is not a bijection), behaviour at the bounds and floating-"
